@@ -1,0 +1,13 @@
+//go:build verif
+
+package keeper
+
+import (
+	sdk "github.com/cosmos/cosmos-sdk/types"
+)
+
+// verifGenesisRoundTrip is the composition the genesis fixpoint contract (C12) is stated on: import, into the same
+// store, what was just exported. It exists only under the build tag "verif" and is never called.
+func (k Keeper) verifGenesisRoundTrip(ctx sdk.Context) {
+	k.InitGenesis(ctx, k.ExportGenesis(ctx))
+}
